@@ -238,12 +238,14 @@ def step (s : St) : Ev → St × Reply
                   let ch := s.caches i
                   if hasVal i s.ids then { ch.cancelFuts with task := none } else { ch with task := none } }, .done)
   | .tmShutdown =>
-    -- the inherited `TaskManager.shutdown_task_manager()` called on the request cache object: same `_shutdown` flag,
-    -- every task cancelled — but the identifier table and the managed futures are NOT touched (that is what
-    -- `RequestCache.shutdown()` adds, whenever it is called afterwards)
+    -- `RequestCache.shutdown_task_manager()` (the override of the inherited method): cancel the managed futures of the
+    -- registered caches, forget them, then `TaskManager.shutdown_task_manager()` (returns early when already shut down)
     if s.running.isSome then (s, .refused)
-    else if s.shutdown then (s, .done)
-    else ({ s with shutdown := true, runReg := false, caches := fun i => { s.caches i with task := none } }, .done)
+    else
+      let s1 := { s with ids := [],
+                         caches := fun i => if hasVal i s.ids then (s.caches i).cancelFuts else s.caches i }
+      if s.shutdown then (s1, .done)
+      else ({ s1 with shutdown := true, runReg := false, caches := fun i => { s1.caches i with task := none } }, .done)
   | .futSet c i =>
     if s.n ≤ c then (s, .refused)
     else ({ s with caches := upd s.caches c { s.caches c with futs := modNth Fut.extSet i (s.caches c).futs } }, .done)
